@@ -135,7 +135,7 @@ impl Engine for TaskEngine {
         true
     }
     fn crash_blame(&self) -> Vec<&'static str> {
-        vec!["C13"]
+        vec!["C13", "C05"]
     }
     fn nontrivial_rule(&self) -> &'static str {
         "a case is one task (spawn or spawn_and_forget) with a scripted future and a sequence of handle operations \
@@ -236,9 +236,13 @@ impl Engine for TaskEngine {
         let mut started = false;
         let (a0, f0) = (TASK_ALLOCS.load(Ordering::SeqCst), TASK_FREES.load(Ordering::SeqCst));
         let mut wakes = 0;
+        let two_runnables = std::sync::atomic::AtomicBool::new(false);
         for l in lines {
             let w: Vec<&str> = l.split_whitespace().collect();
             let obs = |extra: &str| {
+                if sh.queue.lock().unwrap().len() > 1 || two_runnables.load(Ordering::SeqCst) {
+                    two_runnables.store(true, Ordering::SeqCst);
+                }
                 format!(
                     "q={} polls={} fd={} od={} free={}{}",
                     sh.queue.lock().unwrap().len(),
@@ -395,8 +399,9 @@ impl Engine for TaskEngine {
                 out.monitor.push(("C13".into(), format!("all handles released: {al} task allocation(s), {fr} deallocation(s)")));
             }
         }
-        if sh.queue.lock().unwrap().len() > 1 {
+        if sh.queue.lock().unwrap().len() > 1 || two_runnables.load(Ordering::SeqCst) {
             out.monitor.push(("C13".into(), "two Runnables of one task exist at the same time".into()));
+            out.monitor.push(("C05".into(), "two Runnables of one task exist at the same time: the task can be polled by two threads at once".into()));
         }
         // release whatever the case left (keeps the process clean); not part of the compared responses
         drop(promise.take());
